@@ -295,13 +295,13 @@ def schema_plan(ctx, props, presets, trace=False):
 def plan_C09(ctx):
     ctx.assumptions = ["INVARIANT SchemaInv is checked by TLC on the specification for the same histories (model level)",
                        "exact re-issued aliases / list positions are compared at drift level; the property level is the invariants on the projected implementation state and 'refused => unchanged'"]
-    schema_plan(ctx, ["C09"], ["9", "9d", "8"], trace=True)
+    schema_plan(ctx, ["C09"], ["9", "9d", "8@q"], trace=True)      # the thorough 'names' preset (9 M histories) belongs to C08
 
 
 def plan_C07(ctx):
     ctx.assumptions = ["from-scratch analysis is (i) Schema.tla's Analysis (least fixpoint over RSTyping) and (ii) a copy reloaded from the saved document",
                        "resolved term / definition texts are compared only when term references are acyclic"]
-    schema_plan(ctx, ["C07"], ["7a", "7b", "7t", "7p", "9", "8"], trace=True)
+    schema_plan(ctx, ["C07"], ["7a", "7b", "7t", "7p", "9@q", "8@q"], trace=True)   # thorough 'ids' belongs to C09, 'names' to C08
 
 
 def plan_C08(ctx):
